@@ -524,7 +524,29 @@ def run_case(prop, name, params, budget=None):
             nq += 1
             if r == z3.sat:
                 res["vacuity_sat"] += 1
-        # implementation's own star arguments < 1 under the oracle's pivots (time-boxed, informative)
+        # the implementation's own star arguments (path hypotheses `arg < 1`) follow from the oracle's
+        # convergence pivots?  time-boxed; when not established the evidence says the identities hold
+        # "wherever the implementation's own star arguments are < 1"
+        if pr.hyps and budget.get("star_check", True):
+            seen_p, pivs = set(), []
+            for o in obs:
+                if o.kind == "eq":
+                    for h in o.hyps:
+                        if z3.is_expr(h) and h.get_id() not in seen_p:
+                            seen_p.add(h.get_id())
+                            pivs.append(h)
+            res["star_obligations"] += 1
+            s_ = z3.Solver()
+            s_.set("timeout", budget.get("star_ms", 3000))
+            s_.add(*pr.pc)
+            s_.add(*pivs)
+            s_.add(z3.Or(*[z3.Not(h) for h in pr.hyps]))
+            t = time.time()
+            r = s_.check()
+            tz += time.time() - t
+            nq += 1
+            if r == z3.unsat:
+                res["star_discharged"] += 1
         solver.pop()
     st = eng.stats()
     res.update(explore=st, explore_s=round(t_explore, 3), ob_queries=nq, ob_seconds=round(tz, 3),
